@@ -616,6 +616,66 @@ class GeminiServerProtocol(asyncio.Protocol):
 
         client_ip = self.peer_name[0] if self.peer_name else "unknown"
 
+        # Uploads pass through the same middleware chain as Gemini requests:
+        # the upload handler only runs once the chain has admitted the request
+        if self.middleware:
+            try:
+                task = asyncio.create_task(
+                    self.middleware.process_request(
+                        self.titan_request.normalized_url,
+                        client_ip,
+                        self.titan_request.client_cert_fingerprint,
+                    )
+                )
+                task.add_done_callback(
+                    lambda t: self._handle_titan_middleware_result(t, client_ip)
+                )
+            except RuntimeError:
+                # No event loop running (probably in tests)
+                self._send_error_response(
+                    StatusCode.TEMPORARY_FAILURE,
+                    "Server error: middleware requires event loop",
+                )
+            return
+
+        self._start_titan_upload(client_ip)
+
+    def _handle_titan_middleware_result(
+        self, task: asyncio.Task, client_ip: str
+    ) -> None:
+        """Handle the middleware verdict for a Titan upload.
+
+        Args:
+            task: The completed middleware task.
+            client_ip: The client's IP address.
+        """
+        try:
+            allow, error_response = task.result()
+        except Exception as e:
+            logger.error(
+                "middleware_error",
+                client_ip=client_ip,
+                error=str(e),
+                exception_type=type(e).__name__,
+            )
+            self._send_error_response(StatusCode.TEMPORARY_FAILURE, "Middleware error")
+            return
+
+        if not allow:
+            self._send_rejection(error_response)
+            return
+
+        self._start_titan_upload(client_ip)
+
+    def _start_titan_upload(self, client_ip: str) -> None:
+        """Hand the (admitted) Titan request to the upload handler.
+
+        Args:
+            client_ip: The client's IP address.
+        """
+        if not self.upload_handler or not self.titan_request:
+            return
+
         try:
             # Create async task for upload handler
             task = asyncio.create_task(
